@@ -74,15 +74,21 @@ impl LuaMemberIndex {
         if feature.is_decl() {
             if let Some(item) = member_map.get_member_mut(&key) {
                 match item {
+                    // declarations of one key are kept in (file id, position) order, so that the
+                    // order does not depend on which file was (re)analysed last
                     LuaMemberIndexItem::One(old_id) => {
                         if old_id != &id {
-                            let ids = vec![*old_id, id];
+                            let mut ids = vec![*old_id, id];
+                            ids.sort_by_key(|id| (id.file_id, id.get_position()));
                             *item = LuaMemberIndexItem::Many(ids);
                         }
                     }
                     LuaMemberIndexItem::Many(ids) => {
                         if !ids.contains(&id) {
-                            ids.push(id);
+                            let key = (id.file_id, id.get_position());
+                            let pos =
+                                ids.partition_point(|x| (x.file_id, x.get_position()) < key);
+                            ids.insert(pos, id);
                         }
                     }
                 }
